@@ -496,7 +496,8 @@ def AvailR (g : Graph) (sd : State) (w n : Nat) : Prop :=
   ∀ e ∈ (g.node n).setup, (g.node e.1).flat = false → relevant g w e.1 = true →
     ∀ vs ∈ (g.node n).gets, vs.1 ∈ e.2 →
       vs ∈ storeGet sd.store "shared" ∨
-      (∃ u, vs ∈ storeGet sd.store (g.worker u).id ∧ HasLoc (sd.nd n).getLoc vs.1 (workerLoc g u)) ∨
+      (∃ u, u < g.workers.length ∧ vs ∈ storeGet sd.store (g.worker u).id ∧
+        HasLoc (sd.nd n).getLoc vs.1 (workerLoc g u)) ∨
       (∃ r ∈ sharedResults g sd e.1, r.status ≠ "PASS") ∨
       (∃ p', p' < g.nodes.length ∧ (g.node p').cls = (g.node e.1).cls ∧ relevant g w p' = true ∧
         isCleanupReady g sd p' w = true)
@@ -590,7 +591,10 @@ theorem traverseNode_semR (g : Graph) (hwf : GraphWF g)
             · left
               rw [f1.fr.store, ← fA.fr.store]; exact h
             · right; left
-              refine ⟨u, by rw [f1.fr.store, ← fA.fr.store]; exact h, ?_⟩
+              have hult : u < g.workers.length := by
+                obtain ⟨_, _, _, hfind⟩ := (mem_listed g _ e.1 u).mp hu
+                exact List.mem_range.mp (List.mem_of_find?_eq_some hfind)
+              refine ⟨u, hult, by rw [f1.fr.store, ← fA.fr.store]; exact h, ?_⟩
               have hloc : workerLoc g u ∈ locsOf g (s.setNd next (fun d => { d with started := some w })) e.1 := by
                 unfold locsOf
                 exact List.mem_cons_of_mem _ (List.mem_map.mpr ⟨u, hu, rfl⟩)
@@ -1013,5 +1017,56 @@ theorem ReachS.semR {g : Graph} (hwf : graphWF g = true) (hroot : (g.node g.root
   | step s w out fuel hs _ _ ih =>
     exact (resume_semR g (GraphWF.of_bool hwf) hroot sc s w out fuel (hs.reachR.basic hwf) (hs.reachR.uids hwf hN hP)
       (hs.reachH.trv (GraphWF.of_bool hwf) hroot sc.hO.uniq) ih).1
+
+/-! ## instances for `Props/C01.lean` -/
+
+/-- one worker: test `a` sets `vm1/a` and removes it when reversed (`unset_mode = fi`), test `b` gets it -/
+def exRm1 : Graph :=
+  { workers := [{ id := "net1", swarm := "localhost" }],
+    nodes := [
+      { cls := 0, owner := some 0, name := "a.net1", pfx := "1a1", objs := ["vm1"],
+        sets := [("vm1", "a")], unsetMode := [("vm1", "fi")], setup := [(2, ["vm1"])], cleanup := [(1, ["vm1"])] },
+      { cls := 1, owner := some 0, name := "b.net1", pfx := "2a1", objs := ["vm1"],
+        gets := [("vm1", "a")], setup := [(0, ["vm1"])] },
+      { cls := 2, owner := none, name := "noop", pfx := "1", flat := true, sharedRoot := true,
+        cleanup := [(0, ["vm1"])] }],
+    root := 2 }
+
+/-- `a` is running -/
+def exRm1_1 : State := runSched exRm1 100 (initState exRm1 3 [] []) [(0, exNoOut)]
+/-- `a` passed, `b` is running -/
+def exRm1_2 : State := runSched exRm1 100 (initState exRm1 3 [] []) [(0, exNoOut), (0, exPass)]
+
+/-- two workers in one scope; the removable class `a` and its dependant `b` are parsed for net2 only, net1 has a test
+`c` of its own (`RemovableSingle` holds) -/
+def exRm2 : Graph :=
+  { workers := [{ id := "net1", swarm := "localhost" }, { id := "net2", swarm := "localhost" }],
+    nodes := [
+      { cls := 0, owner := some 1, name := "a.net2", pfx := "1a1", objs := ["vm1"],
+        sets := [("vm1", "a")], unsetMode := [("vm1", "fi")], setup := [(3, ["vm1"])], cleanup := [(1, ["vm1"])] },
+      { cls := 1, owner := some 1, name := "b.net2", pfx := "2a1", objs := ["vm1"],
+        gets := [("vm1", "a")], setup := [(0, ["vm1"])] },
+      { cls := 3, owner := some 0, name := "c.net1", pfx := "3a1", objs := ["vm1"], setup := [(3, ["vm1"])] },
+      { cls := 2, owner := none, name := "noop", pfx := "1", flat := true, sharedRoot := true,
+        cleanup := [(0, ["vm1"]), (2, ["vm1"])] }],
+    root := 3 }
+
+/-- `exSt` of `TravStates.lean` (test `a` sets `vm1/a`, copies for net1 and net2; only net2 has the dependant `b`) with
+the removal policy `fi` on `a`: `RemovableSingle` fails -/
+def exRmStale : Graph :=
+  { workers := [{ id := "net1", swarm := "localhost" }, { id := "net2", swarm := "localhost" }],
+    nodes := [
+      { cls := 0, owner := some 0, name := "a.net1", pfx := "1a1", objs := ["vm1"],
+        sets := [("vm1", "a")], unsetMode := [("vm1", "fi")], setup := [(3, ["vm1"])] },
+      { cls := 0, owner := some 1, name := "a.net2", pfx := "1a1", objs := ["vm1"],
+        sets := [("vm1", "a")], unsetMode := [("vm1", "fi")], setup := [(3, ["vm1"])], cleanup := [(2, ["vm1"])] },
+      { cls := 1, owner := some 1, name := "b.net2", pfx := "2a1", objs := ["vm1"],
+        gets := [("vm1", "a")], setup := [(1, ["vm1"])] },
+      { cls := 2, owner := none, name := "noop", pfx := "1", flat := true, sharedRoot := true,
+        cleanup := [(0, ["vm1"]), (1, ["vm1"])] }],
+    root := 3 }
+
+/-- net1 ran `a`, passed, found its copy without dependants and removed the state from its pool; net2 has not moved -/
+def exRmStale_2 : State := runSched exRmStale 100 (initState exRmStale 3 [] []) [(0, exNoOut), (0, exPass)]
 
 end I2N.Trav
